@@ -160,6 +160,15 @@ def deleteWhere (t : Table) (p : Row → Bool) : Table :=
 def clear (t : Table) : Table :=
   { t with rows := [], idxs := t.idxs.map (fun u => { u with keys := [] }), tracker := Tracker.new }
 
+/-- CREATE TABLE: empty table with its declared constraints -/
+def create (ncols : Nat) (notNull : List Nat) (pk : Option (List Nat)) (uniques : List (List Nat))
+    (checks : List Expr) : Table :=
+  { ncols := ncols, notNull := notNull, pk := pk,
+    idxs := (match pk with
+      | some cols => [{ cols := cols, skipNull := false, keys := [] }]
+      | none => []) ++ uniques.map (fun c => { cols := c, skipNull := true, keys := [] }),
+    checks := checks, rows := [], tracker := Tracker.new }
+
 /-! #### row validation -/
 
 /-- `coerce_value` for an INTEGER column: NULL and integers pass -/
